@@ -10,7 +10,7 @@ COQ_TARGETS = ["theories/Wire/AuthDataCheck.vo"]
 HARNESS_BINS = ["authdata"]
 COQ_FILES = ["theories/Wire/AuthDataFacts.v", "theories/Props/C12.v"]
 
-ID_LENS = [0, 1, 16, 64, 255, 256, 1023, 65535, 65536]
+ID_LENS = [0, 1, 16, 64, 255, 256, 1023, 1024, 65535, 65536]
 ALGS = [-65535, -260, -259, -258, -257, -47, -46, -45, -44, -43, -42, -41, -40, -39, -38, -37, -36, -35,
         -34, -33, -32, -31, -30, -29, -28, -27, -26, -25, -18, -17, -16, -15, -14, -13, -12, -11, -10,
         -8, -7, -6, -5, -4, -3, 0, 1, 2, 3, 4, 5, 6, 7, 10, 11, 12, 13, 14, 15, 24, 25, 26, 30, 31, 32, 33, 34]
@@ -412,6 +412,38 @@ def check(run):
     for c, o in zip(enc_cases, enc_out):
         add("encode", c, o, enc_term(c, o))
 
+    # ---- phase 1b: decode(encode(v)) for EVERY value built with the constructor and setters in this run (all id
+    # lengths up to 65535, every section combination): the implementation must accept its own encoding and give the
+    # value back.  Judged without the model (re-encoding equals the input, flags and counter read back, attested id
+    # and extension bytes are those put in); the model is compared on the same inputs (CDec).
+    rt_cases, rt_seen = [], set()
+    for c, o in zip(enc_cases, enc_out):
+        if "bytes" not in o or o["bytes"] in rt_seen:
+            continue
+        if any("raw" in s_ or "acd_raw" in s_ or ("flags" in s_ and s_["flags"] & ~29) for s_ in c["steps"]):
+            continue
+        rt_seen.add(o["bytes"]); rt_cases.append((c, o))
+    rt_out = common.harness_run(binary, [{"op": "decode", "input": o["bytes"]} for _, o in rt_cases])
+    rt_fail = []
+    for (c, o), d in zip(rt_cases, rt_out):
+        acds = [s_["acd"] for s_ in c["steps"] if "acd" in s_]
+        why = None
+        if d.get("panic") or d.get("crash"): why = "from_slice panicked on the library's own encoding"
+        elif not d.get("ok"): why = "from_slice rejects the library's own encoding"
+        elif not (d["same"] or d.get("ext_float")): why = "decoding and re-encoding does not give the same bytes"
+        elif d["flags"] != o["flags"]: why = "flags read back differ"
+        elif d["counter"] != (c["counter"] or 0): why = "counter reads back as %s" % d["counter"]
+        elif bool(acds) != (d["acd"] is not None): why = "attested credential data presence differs"
+        elif acds and d["acd"]["id"] != acds[-1]["id"]: why = "credential id reads back differently"
+        elif (o["ext"] is None) != (d["ext"] is None): why = "extension section presence differs"
+        if why:
+            rt_fail.append(({"op": "decode", "input": o["bytes"] if len(o["bytes"]) < 6000 else o["bytes"][:6000] + "...",
+                             "built_by": c if len(json.dumps(c)) < 6000 else {"rp": c["rp"], "counter": c["counter"], "steps": "(%d steps, id of %d bytes)" % (len(c["steps"]), len(acds[-1]["id"]) // 2 if acds else 0)},
+                             "note": why}, d))
+        add("decode", {"op": "decode", "input": o["bytes"]}, d, "CDec %s %s" % (hexlit(o["bytes"]), dec_obs_term(d)))
+    for c2, d in rt_fail[:3]:
+        run.violation({"kind": "round trip: " + c2["note"], "case": c2, "observed": trim(d)})
+
     # ---- phase 2: every truncation and single-byte corruptions of a spread of encodings
     picks = pick_encodings(run, enc_cases, enc_out, 20 if quick else 200)
     cut_in = [{"op": "cuts", "input": o["bytes"]} for _, o in picks]
@@ -484,7 +516,7 @@ def check(run):
         c, o = narrow(binary, kind, c, o)
         run.violation({"kind": "property oracle false on the implementation's observation (%s)" % kind,
                        "case": c, "observed": trim(o)})
-    if not res["oracle"]:
+    if not res["oracle"] and not rt_fail:
         for i in res["agree"][:1]:
             kind, c, o = all_cases[i]
             run.violation({"kind": "model and implementation disagree (%s); oracle true on all %d cases of this run" % (kind, len(terms)),
@@ -529,6 +561,8 @@ def check(run):
                 % (ID_LENS, EXT_VARIANTS, len(cut_in), len(flip_in), len(sweep_in)),
         "samples": [terms[len(corpus())][:300], next((t for t in terms if t.startswith("CCuts")), "")[:300], terms[-20][:300]],
         "model_disagreements": len(res["agree"]), "oracle_failures": len(res["oracle"]),
+        "round_trip_cases": len(rt_cases), "round_trip_failures": len(rt_fail),
+        "round_trip_id_lengths": sorted(set(len([s_["acd"] for s_ in c["steps"] if "acd" in s_][-1]["id"]) // 2 for c, _ in rt_cases if any("acd" in s_ for s_ in c["steps"]))),
         "encode_cases": len(enc_cases), "cut_inputs": n_cuts, "flip_inputs": n_flips, "decode_cases": len(dec_in),
         "cose_cases": len(cose_in), "case_terms": len(terms), "literal_bytes": lit_bytes,
     })
